@@ -272,7 +272,7 @@ func c08Case(seed int64, idx int) packedCase {
 var c08Budget = core.Budget{MaxSteps: 100000, MaxDepth: 200, MaxLen: 1 << 12, MaxOut: 1 << 18}
 
 func runC08(r *core.Run) {
-	r.SetRule("scope-tree functions over the names x and y (package globals, optionally also parameters): := / var / x, y := declarations (new, shadowing, mixed redeclaration), assignments, if with and without init, for with a loop variable from the name set, per-iteration body variables, range with key/value from the name set, switch clauses; both names are printed after every declaration, assignment and block end, and the globals after the call. non-trivial = accepted by Go and at least 5 emits executed; distinct by function text")
+	r.SetRule("scope-tree functions over the names x and y (package globals, optionally also parameters): := / var / x, y := declarations (new, shadowing, mixed redeclaration), assignments, if with and without init, for with a loop variable from the name set, per-iteration body variables, range with key/value from the name set, switch clauses; both names are printed after every declaration, assignment and block end, and the globals after the call; plus two-package programs in which parameters, locals, block-level variables, loop and range variables, switch-clause and if-init variables are named like an imported package (or its alias, or fmt), with stores, compound assignments and ++ through them and uses of the package before and after the block. non-trivial = accepted by Go and at least 5 emits executed; distinct by function text")
 	r.Assume("Go toolchain (GOARCH=386) as the reference")
 	n := r.N(4000, 80000)
 	cases := make([]packedCase, n)
@@ -313,6 +313,93 @@ func runC08(r *core.Run) {
 		}
 	}
 	r.SetObserved("constructs_in_decided_cases", kinds)
+	c08RunPkgCases(r)
+}
+
+// c08PkgCase: parameters, locals, loop and range variables named like an imported package (or its alias,
+// or like fmt) shadow the package inside their block; outside it the package is visible again.
+func c08PkgCase(seed int64, idx int) core.RefCase {
+	rng := core.Derive(seed, "c08-pkg", idx)
+	root := fmt.Sprintf("ref/p%06d", idx)
+	dir := root + fmt.Sprintf("/cmd%06d", idx)
+	fld := core.Pick(rng, []string{"Count", "N", "Total"})
+	var lib strings.Builder
+	fmt.Fprintf(&lib, "package util\n\nvar %s = %d\nvar Other = %d\n\nfunc Inc() int {\n\t%s++\n\treturn %s\n}\n\nfunc Get() int {\n\treturn %s * 2\n}\n", fld, rng.Intn(50), rng.Intn(50), fld, fld, fld)
+	alias := "util"
+	imp := fmt.Sprintf("\t\"%s/util\"\n", root)
+	if rng.Bool() {
+		alias = core.Pick(rng, []string{"u", "ut", "lib"})
+		imp = fmt.Sprintf("\t%s \"%s/util\"\n", alias, root)
+	}
+	var sb strings.Builder
+	fmt.Fprintf(&sb, "package main\n\nimport (\n\t\"fmt\"\n%s)\n\n", imp)
+	fmt.Fprintf(&sb, "type S struct {\n\t%s int\n\tOther int\n}\n\nfunc (s *S) Get() int {\n\treturn s.%s + 1\n}\n\nfunc (s *S) Inc() int {\n\ts.%s += 10\n\treturn s.%s\n}\n\n", fld, fld, fld, fld)
+	a, b, c := rng.Intn(40), rng.Range(1, 9), rng.Range(2, 5)
+	var calls []string
+	add := func(name, body, call string) {
+		fmt.Fprintf(&sb, "func %s {\n%s}\n\n", name, body)
+		calls = append(calls, call)
+	}
+	A := alias
+	forms := []func(){
+		func() { // parameter
+			add(fmt.Sprintf("f1(%s *S, n int) int", A), fmt.Sprintf("\t%s.%s = n\n\t%s.%s += %d\n\t%s.%s++\n\t%s.Other = %s.%s * %d\n\treturn %s.%s + %s.Other + %s.Get()\n", A, fld, A, fld, b, A, fld, A, A, fld, c, A, fld, A, A), fmt.Sprintf("f1(&S{}, %d)", a))
+		},
+		func() { // local
+			add("f2() int", fmt.Sprintf("\t%s := &S{%s: %d}\n\t%s.%s *= %d\n\t%s.Other = %d\n\tr := %s.%s\n\tr += %s.Get()\n\tr += %s.Inc()\n\treturn r\n", A, fld, a, A, fld, c, A, b, A, fld, A, A), "f2()")
+		},
+		func() { // block-level: the package is visible before and after the block
+			add("f3() int", fmt.Sprintf("\tr := %s.Inc()\n\tif r > 0 {\n\t\t%s := &S{}\n\t\t%s.%s = %d\n\t\t%s.%s++\n\t\tr += %s.%s\n\t\tr += %s.Inc()\n\t}\n\t%s.%s += %d\n\treturn r + %s.Inc() + %s.Get()\n", A, A, A, fld, a, A, fld, A, fld, A, A, fld, b, A, A), "f3()")
+		},
+		func() { // loop variable
+			add("f4() int", fmt.Sprintf("\ts := %s.Get()\n\tfor %s := 0; %s < %d; %s++ {\n\t\ts += %s\n\t}\n\tfor _, %s := range []int{%d, %d} {\n\t\ts += %s * 2\n\t}\n\treturn s + %s.Inc()\n", A, A, A, c, A, A, A, a, b, A, A), "f4()")
+		},
+		func() { // a parameter named fmt, an int local named like the package
+			add("f5(fmt int) int", fmt.Sprintf("\t%s := fmt * %d\n\t%s += %d\n\t%s++\n\treturn %s + fmt\n", A, c, A, b, A, A), fmt.Sprintf("f5(%d)", a))
+		},
+		func() { // switch clause and if-init
+			add("f6(n int) int", fmt.Sprintf("\tr := 0\n\tswitch {\n\tcase n > 1:\n\t\t%s := n * %d\n\t\tr = %s\n\tdefault:\n\t\tr = %s.Get()\n\t}\n\tif %s := r + 1; %s > 0 {\n\t\tr += %s\n\t}\n\t%s.Other += r\n\treturn r + %s.Other\n", A, c, A, A, A, A, A, A, A), fmt.Sprintf("f6(%d)", rng.Intn(4)))
+		},
+	}
+	core.Shuffle(rng, forms)
+	for _, f := range forms[:rng.Range(2, len(forms))] {
+		f()
+	}
+	sb.WriteString("func main() {\n")
+	for _, cl := range calls {
+		fmt.Fprintf(&sb, "\tfmt.Println(%q, %s, %s.%s, %s.Other)\n", cl, cl, A, fld, A)
+	}
+	fmt.Fprintf(&sb, "\tfmt.Println(%s.Inc(), %s.Get())\n}\n", A, A)
+	return core.RefCase{Files: map[string]string{root + "/util/util.go": lib.String(), dir + "/main.go": sb.String()}, MainDir: dir}
+}
+
+func c08RunPkgCases(r *core.Run) {
+	n := r.N(200, 4000)
+	var cases []core.RefCase
+	for i := 0; i < n; i++ {
+		cases = append(cases, c08PkgCase(r.Seed, i))
+	}
+	refs, err := core.RunRef(cases)
+	if err != nil {
+		r.Inconclusive("reference_executor_failed")
+		return
+	}
+	core.Parallel(n, func(i int) {
+		r.Eval(1)
+		if refs[i].Rejected {
+			r.Count("rejected_by_go", 1)
+			r.NoteReject(firstLine(refs[i].RejectMsg))
+			return
+		}
+		m := core.NewMachine(core.VMOpts{Optimize: i%2 == 0, Obs: core.NewObs(core.SmallBudget, false, nil)})
+		o := m.LoadMain(core.MapFS(cases[i].Files), cases[i].MainDir)
+		if what := compareWithGo(refs[i], o); what != "" {
+			r.Violate(core.Violation{Check: "c08-pkg", Index: i, What: "names shadowing an imported package: " + what, Case: cases[i], Expected: refs[i].Out, Observed: o, Extra: firstDiff(refs[i].Out, o.Out)})
+			return
+		}
+		r.Distinct(treeKey(cases[i].Files))
+		r.Count("package_shadowing_cases", 1)
+	})
 }
 
 func replayC08(r *core.Run, v *core.Violation) {
